@@ -4,7 +4,7 @@
 (* of GxzFs.  Non-mutating calls stutter.  The final directory of the real    *)
 (* run (also after a kill) must be the automaton's fs.                        *)
 (*  {"ev":"Reset","alias":..,"keep":..,"force":..,"tgtExists":..,"inputOk":..,"stdout":..}  *)
-(*  {"ev":"Sys","name":..,"a":"IN|TMP|TGT","b":"..","ret":n,"creat":bool,"eofSeen":bool}   *)
+(*  {"ev":"Sys","name":..,"a":"IN|TMP|TGT","b":"..","ret":n,"creat":bool,"eofSeen":bool,"unfinished":bool} *)
 (*  {"ev":"Exit","code":n} | {"ev":"Killed"}                                             *)
 (*  {"ev":"Dir","din":c,"dtgt":c,"dtmp":c}                                                   *)
 EXTENDS GxzFs, Json, TLCExt
@@ -28,14 +28,17 @@ Mutating(e) == \/ e.name = "openat" /\ e.creat
                \/ e.name \in {"write", "renameat", "unlinkat"}
                \/ e.name = "close" /\ e.a = "TMP"
 
+(* A call that was entered when the process ended (interrupt) was not seen to return: whether  *)
+(* it took effect is left to TLC - both outcomes are tried, the final directory decides.        *)
+Outcome(b) == IF E.unfinished THEN BOOLEAN ELSE {b}
 TSys == /\ Is("Sys") /\ ~dead /\ UNCHANGED <<dead, cfg>>
         /\ IF ~Mutating(E) THEN UNCHANGED svars
-           ELSE CASE E.name = "openat" /\ E.a = "TMP" -> CreateTmp(E.ret >= 0)
-                  [] E.name = "write" /\ E.a = "TMP"  -> WriteTmp(E.ret >= 0)
-                  [] E.name = "close" /\ E.a = "TMP"  -> CloseTmp(E.ret = 0, InputOk)
-                  [] E.name = "renameat" /\ E.a = "TMP" /\ E.b = "TGT" -> Rename(E.ret = 0)
-                  [] E.name = "unlinkat" /\ E.a = "IN"  -> UnlinkIn(E.ret = 0)
-                  [] E.name = "unlinkat" /\ E.a = "TMP" -> IF tmpOpen THEN UnlinkOpenTmp(E.ret = 0) ELSE UnlinkTmp(E.ret = 0)
+           ELSE CASE E.name = "openat" /\ E.a = "TMP" -> \E ok \in Outcome(E.ret >= 0) : CreateTmp(ok)
+                  [] E.name = "write" /\ E.a = "TMP"  -> \E ok \in Outcome(E.ret >= 0) : WriteTmp(ok)
+                  [] E.name = "close" /\ E.a = "TMP"  -> \E ok \in Outcome(E.ret = 0) : CloseTmp(ok, InputOk)
+                  [] E.name = "renameat" /\ E.a = "TMP" /\ E.b = "TGT" -> \E ok \in Outcome(E.ret = 0) : Rename(ok)
+                  [] E.name = "unlinkat" /\ E.a = "IN"  -> \E ok \in Outcome(E.ret = 0) : UnlinkIn(ok)
+                  [] E.name = "unlinkat" /\ E.a = "TMP" -> \E ok \in Outcome(E.ret = 0) : IF tmpOpen THEN UnlinkOpenTmp(ok) ELSE UnlinkTmp(ok)
                   [] OTHER -> FALSE          \* e.g. creating/writing/unlinking the target name directly
 TExit == Is("Exit") /\ ~dead /\ Exit(IF E.code = 0 THEN 0 ELSE 1) /\ UNCHANGED <<dead, cfg>>
 TKilled == Is("Killed") /\ dead' = TRUE /\ Same
